@@ -2,6 +2,9 @@
 EXTENDS Flood, Json
 CONSTANT Depth
 GenRoleCfgs == [Peers -> SUBSET {"seed", "root"}]
+RelayAllowCfgs == {{}}
+GenAllowCfgs == {{}, {"p1"}, {"p2", "p3"}}
+GenTableAllowCfgs == {{}, {"p2"}, {"p1", "p2", "p3"}}
 GenTypeCfgs == [Peers -> {"none", "parent", "friend"}]
 \* relay walks: p1 and p2 are root peers, p3 relays only
 GenRelayRoleCfgs == {[p \in Peers |-> IF p = "p3" THEN {} ELSE {"root"}]}
